@@ -1,55 +1,33 @@
 """C17 — configuration text becomes exactly the configuration it spells, or a clean error."""
 import json, os, threading
-from verifkit import read_lines
+from verifkit import read_lines, VERIF
 
-REQUIRED = [
-]
+REQUIRED = ["DaeVerif.C17.Props." + n for n in [
+    "parse_total", "tokens_iff_tree", "parse_spells", "lexer_reads_back", "parse_render",
+    "parse_render_canonical", "wfCheck_establishes_WF", "skips_whitespace", "skips_line_comment", "skips_concat",
+    "walk_keeps_every_item", "walkFn_faithful",
+    "merge_order", "merge_into_appends", "circular_include_rejected", "include_of_visited_rejected",
+    "merge_no_file_twice", "merge_reads_confined", "confined_means_under",
+    "unknown_section_rejected", "missing_required_section_rejected", "unknown_key_rejected",
+    "missing_required_key_rejected", "defaults_applied", "defaults_applied_any_depth",
+    "oversize_rejected", "compiled_within_limit",
+]]
 
-SHARDS = 4
-
-
-def run_shards(ctx, binp, test, prefix, shards, env_extra=None, timeout=1500):
-    """Run `test` of the harness binary `shards` times in parallel (VERIF_SHARD=i); returns the
-    list of (rc, out)."""
-    res = [None] * shards
-
-    def one(i):
-        env = {"VERIF_SHARD": i, "VERIF_SHARDS": shards}
-        if env_extra:
-            env.update(env_extra)
-        res[i] = ctx.run_harness(binp, test, env_extra=env, timeout=timeout)
-
-    th = [threading.Thread(target=one, args=(i,)) for i in range(shards)]
-    for t in th: t.start()
-    for t in th: t.join()
-    return res
+PARSE_SHARDS, CONFIG_SHARDS, COMPILE_SHARDS = 4, 2, 2
+MAX_PROCS = 6
 
 
-def drive_and_diff(ctx, names, what):
-    """model the ops of every stream with c17drv (in parallel) and diff."""
-    ok = [True] * len(names)
-
-    def one(i):
-        ops, model = (os.path.join(ctx.out, names[i] + e) for e in (".ops", ".model"))
-        ok[i] = ctx.driver("c17drv", ops, model)
-
-    th = [threading.Thread(target=one, args=(i,)) for i in range(len(names))]
-    for t in th: t.start()
-    for t in th: t.join()
-    n_lines = 0
-    for i, nm in enumerate(names):
-        ops, impl, model = (os.path.join(ctx.out, nm + e) for e in (".ops", ".impl", ".model"))
-        if not ok[i]:
-            ctx.proof_failures.append(f"model driver c17drv failed on {nm}")
-            continue
-        mism = ctx.diff_streams(ops, impl, model, nm)
-        n_lines += ctx.cov["streams"][nm]["lines"]
-        for ln, op, im, mo in mism[:4]:
-            kind = "PANIC in the real code" if im.startswith("crash:") else "implementation differs from proved model"
-            ctx.report(f"{what}: {kind} at {nm} line {ln}: impl `{im[:300]}` model `{mo[:300]}`",
-                       {"stream": nm, "line": ln, "op": op[:20000], "impl": im[:5000], "model": mo[:5000],
-                        "replay": "VERIF_SEED=%d ./check C17 %s" % (ctx.seed, ctx.tier)})
-    return n_lines
+def shared_file(ctx, pkgname, in_cp):
+    """instantiate harness/overlay/c17_shared.go.tmpl for one package"""
+    t = open(os.path.join(VERIF, "harness", "overlay", "c17_shared.go.tmpl")).read()
+    t = t.replace("__PKG__", pkgname)
+    if in_cp:
+        t = t.replace("__CPIMPORT__", "").replace("__CP__", "")
+    else:
+        t = t.replace("__CPIMPORT__", '\t"github.com/daeuniverse/dae/pkg/config_parser"').replace("__CP__", "config_parser.")
+    out = os.path.join(ctx.out, f"c17_shared_{pkgname}_test.go")
+    open(out, "w").write(t)
+    return out
 
 
 def merge_stats(ctx, names):
@@ -64,76 +42,116 @@ def merge_stats(ctx, names):
     return counters, samples
 
 
-def shared_file(ctx, pkgname, in_cp):
-    """instantiate harness/overlay/c17_shared.go.tmpl for one package"""
-    from verifkit import VERIF
-    t = open(os.path.join(VERIF, "harness", "overlay", "c17_shared.go.tmpl")).read()
-    t = t.replace("__PKG__", pkgname)
-    if in_cp:
-        t = t.replace("__CPIMPORT__", "").replace("__CP__", "")
-    else:
-        t = t.replace("__CPIMPORT__", '\t"github.com/daeuniverse/dae/pkg/config_parser"').replace("__CP__", "config_parser.")
-    out = os.path.join(ctx.out, f"c17_shared_{pkgname}_test.go")
-    open(out, "w").write(t)
-    return out
+class Part:
+    """one harness binary: build, run its shards in parallel, model every stream, diff."""
+
+    def __init__(self, ctx, sem, drv_ready, pkg, files, out_name, test, prefix, shards, what, tags):
+        self.ctx, self.sem, self.drv_ready = ctx, sem, drv_ready
+        self.pkg, self.files, self.out_name, self.test = pkg, files, out_name, test
+        self.prefix, self.shards, self.what, self.tags = prefix, shards, what, tags
+        self.names = [f"{prefix}{i}" for i in range(shards)]
+        self.failed = None
+        self.driver_ok = {}
+
+    def shard(self, binp, i):
+        ctx = self.ctx
+        with self.sem:
+            rc, out = ctx.run_harness(binp, self.test, env_extra={"VERIF_SHARD": i, "VERIF_SHARDS": self.shards}, timeout=2400)
+        nm = self.names[i]
+        ops, model = (os.path.join(ctx.out, nm + e) for e in (".ops", ".model"))
+        if rc != 0 or not os.path.exists(ops):
+            self.failed = out[-3000:]
+            return
+        self.drv_ready.wait()
+        with self.sem:
+            self.driver_ok[nm] = ctx.driver("c17drv", ops, model)
+
+    def run(self):
+        ctx = self.ctx
+        with self.sem:
+            binp = ctx.go_test_build(self.pkg, self.files, self.out_name, tags=self.tags)
+        if not binp:
+            self.failed = "build failed"
+            return
+        th = [threading.Thread(target=self.shard, args=(binp, i)) for i in range(self.shards)]
+        for t in th: t.start()
+        for t in th: t.join()
+
+    def collect(self):
+        """diff + report; returns number of compared lines"""
+        ctx, n_lines = self.ctx, 0
+        for nm in self.names:
+            ops, impl, model = (os.path.join(ctx.out, nm + e) for e in (".ops", ".impl", ".model"))
+            if not self.driver_ok.get(nm):
+                ctx.proof_failures.append(f"model driver c17drv failed on {nm}")
+                continue
+            mism = ctx.diff_streams(ops, impl, model, nm)
+            n_lines += ctx.cov["streams"][nm]["lines"]
+            for ln, op, im, mo in mism[:4]:
+                kind = "PANIC in the real code" if im.startswith("crash:") else "implementation differs from proved model"
+                ctx.report(f"{self.what}: {kind} at {nm} line {ln}: impl `{im[:300]}` model `{mo[:300]}`",
+                           {"stream": nm, "line": ln, "op": op[:20000], "impl": im[:5000], "model": mo[:5000],
+                            "replay": "VERIF_SEED=%d ./check C17 %s" % (ctx.seed, ctx.tier)})
+        return n_lines
 
 
 def run(ctx):
     ctx.trusted += [
-        "ANTLR runtime + generated dae_config lexer/parser: modelled from the serialized ATN (grammar rules, longest match, non-greedy string/comment rules); tied differentially on every run, not proved",
-        "lexer character classes are PROBED from the real lexer at run time (table line `classes …`), non-ASCII code points probed to have no class",
+        "ANTLR runtime + generated dae_config lexer/parser: modelled from the serialized ATN (grammar rules, longest match, first rule on ties, the non-greedy string/comment rules); tied differentially on every run, not proved",
+        "lexer character classes are PROBED from the real lexer at run time (table line `classes …`; the driver checks Classes.wfCheck on it), non-ASCII code points probed to have no class",
         "Go's []rune(string) decoding of the input text (invalid UTF-8 → U+FFFD) happens before the model sees the text",
+        "common.FuzzyDecode / netip.ParseAddrPort / IsValidHttpMethod on single values are oracles (answers computed by the real functions, passed to the model per op); the struct schema is probed by reflection from config.Config",
+        "filepath.Glob and the file system are an oracle (FS description + glob answers passed to the model); symlinks are outside the model (the real check is lexical too)",
+        "value parsers of rule compilation (IP, port, MAC, regex …) are not modelled: the size stream uses well-formed values, the pipeline stream only checks absence of panics",
     ]
-    ctx.prove(["DaeVerif.C17.Props"], ["DaeVerif.C17.Props"], ["DaeVerif/C17/*.lean"], extra_targets=["c17drv"])
+    sem = threading.Semaphore(MAX_PROCS)
+    drv_ready = threading.Event()
+
+    # the driver first (fast when cached) so that modelling can start as soon as a shard is done
+    ok, out = ctx.lake_build(["c17drv"])
+    drv_ready.set()
+    if not ok:
+        ctx.proof_failures.append("lake build c17drv failed: " + out[-1500:])
+
+    parts = [
+        Part(ctx, sem, drv_ready, "pkg/config_parser", ["pkg/config_parser/c17_test.go", shared_file(ctx, "config_parser", True)],
+             "c17parse", "TestVerifC17Parse", "c17p", PARSE_SHARDS, "config_parser.Parse", ""),
+        Part(ctx, sem, drv_ready, "config", ["config/c17_test.go", shared_file(ctx, "config", False)],
+             "c17config", "TestVerifC17Config", "c17c", CONFIG_SHARDS, "config.New / Merger / paths", ""),
+        Part(ctx, sem, drv_ready, "control", ["control/c17_test.go", shared_file(ctx, "control", False)],
+             "c17compile", "TestVerifC17Compile", "c17z", COMPILE_SHARDS, "rule compilation / pipeline", "dae_stub_ebpf"),
+    ]
+    threads = [threading.Thread(target=p.run) for p in parts]
+    prover = threading.Thread(target=lambda: ctx.prove(["DaeVerif.C17.Props"], ["DaeVerif.C17.Props"],
+                                                       ["DaeVerif/C17/*.lean"], extra_targets=["c17drv"]))
+    prover.start()
+    for t in threads: t.start()
+    for t in threads: t.join()
+    prover.join()
     ctx.required_theorems(REQUIRED)
 
-    # ---- part 1: Parse
-    binp = ctx.go_test_build("pkg/config_parser", ["pkg/config_parser/c17_test.go", shared_file(ctx, "config_parser", True)], "c17parse", tags="")
-    if not binp:
-        return 2
-    res = run_shards(ctx, binp, "TestVerifC17Parse", "c17p", SHARDS)
-    names = [f"c17p{i}" for i in range(SHARDS)]
-    for i, (rc, out) in enumerate(res):
-        if rc != 0 or not os.path.exists(os.path.join(ctx.out, names[i] + ".ops")):
-            ctx.say("HARNESS-FAILED", out[-3000:])
+    for p in parts:
+        if p.failed:
+            ctx.say("HARNESS-FAILED", p.pkg, p.failed)
             return 2
-    n_parse = drive_and_diff(ctx, names, "config_parser.Parse")
-
-    # ---- part 2: config.New, Merger, paths
-    binc = ctx.go_test_build("config", ["config/c17_test.go", shared_file(ctx, "config", False)], "c17config", tags="")
-    if not binc:
-        return 2
-    res = run_shards(ctx, binc, "TestVerifC17Config", "c17c", 2)
-    cnames = [f"c17c{i}" for i in range(2)]
-    for i, (rc, out) in enumerate(res):
-        if rc != 0 or not os.path.exists(os.path.join(ctx.out, cnames[i] + ".ops")):
-            ctx.say("HARNESS-FAILED", out[-3000:])
-            return 2
-    n_conf = drive_and_diff(ctx, cnames, "config.New / Merger / paths")
-    names += cnames
-
-    # ---- part 3: rule compilation (size limit) and the whole pipeline under recover
-    binz = ctx.go_test_build("control", ["control/c17_test.go", shared_file(ctx, "control", False)], "c17compile")
-    if not binz:
-        return 2
-    res = run_shards(ctx, binz, "TestVerifC17Compile", "c17z", 2)
-    znames = [f"c17z{i}" for i in range(2)]
-    for i, (rc, out) in enumerate(res):
-        if rc != 0 or not os.path.exists(os.path.join(ctx.out, znames[i] + ".ops")):
-            ctx.say("HARNESS-FAILED", out[-3000:])
-            return 2
-    n_comp = drive_and_diff(ctx, znames, "rule compilation / pipeline")
-    names += znames
+    n_eval = sum(p.collect() for p in parts)
+    names = [nm for p in parts for nm in p.names]
     counters, samples = merge_stats(ctx, names)
 
+    # accepted, non-trivial inputs (AST / typed config / merged tree compared field by field)
     distinct = set()
     for nm in names:
         for op, im in zip(read_lines(os.path.join(ctx.out, nm + ".ops")), read_lines(os.path.join(ctx.out, nm + ".impl"))):
-            if im.startswith("ok S"):
-                distinct.add(op)
+            if im.startswith("ok S") or (im.startswith("ok ") and op[:2] in ("c ", "m ", "z ")):
+                distinct.add(op[:4000])
+    crashes = sum(v for k, v in counters.items() if k.endswith("CRASH"))
     ctx.samples = samples[:10]
     ctx.cov["input_distribution"] = counters
-    ctx.assumptions = ["inputs are generated (seeded): grammar-directed texts, token-level near-misses of them, random bytes"]
-    return ctx.finish(rule="one evaluation = one input text run through the real config_parser.Parse and the Lean parse; "
-                           "distinct_nontrivial = distinct texts ACCEPTED with at least one section (AST compared field by field)",
-                      evaluations=n_parse + n_conf + n_comp, distinct=len(distinct))
+    ctx.cov["panics_in_real_code"] = crashes
+    ctx.assumptions = [
+        "inputs are generated (seeded): grammar-directed texts, token-level near-misses of them, random bytes; schema-driven configurations with mutations; include trees in a temp dir; rule programs around the match-set limit",
+    ]
+    return ctx.finish(rule="one evaluation = one op line run through the real code and the Lean model (p: Parse of a text; c: config.New of a text; "
+                           "m: Merger.Merge of a directory tree; path: Clean/Join/Dir/EnsureFileInSubDir of a path pair; z: rule compilation of a program; "
+                           "n: whole pipeline under recover); distinct_nontrivial = distinct ACCEPTED inputs (p with ≥1 section, c, m, z) whose full result was compared",
+                      evaluations=n_eval, distinct=len(distinct))
